@@ -165,13 +165,15 @@ def layer2(chk, tier, seed, stats):
             continue
         rnd = le.rng(seed, "c04", name)
         sp = splits(len(js), rnd, exhaustive_upto=4 if tier == "quick" else 6, sampled=2 if tier == "quick" else 3)
+        # workflow names as users write them: plain, with a space, with other characters that need no escaping
+        jn = ["j", "order flow", "Wf-2.a"][di % 3]
         cases.append({"cid": "%d.ref" % di, "op": "learn_chunks", "chunks": [[jobdef.job_json(j) for j in js]],
-                      "present": {"pseed": seed}, "uuid_seed": seed, "timeout": 300})
+                      "present": {"pseed": seed, "job_name": jn}, "uuid_seed": seed, "timeout": 300})
         owner.append((di, None))
         for si, s in enumerate(sp):
             cases.append({"cid": "%d.%d" % (di, si), "op": "learn_chunks",
                           "chunks": [[jobdef.job_json(js[i]) for i in ch] for ch in s],
-                          "present": {"pseed": seed + 1 + si}, "uuid_seed": seed + si, "timeout": 300})
+                          "present": {"pseed": seed + 1 + si, "job_name": jn}, "uuid_seed": seed + si, "timeout": 300})
             owner.append((di, s))
     res = learner.run_cases(cases)
     ref = {}
